@@ -93,6 +93,29 @@ Theorem C19_dict_roundtrip_verified :
 Proof. exact (fun T W => verified_roundtrip T (wf_table_WF T W)). Qed.
 Print Assumptions C19_dict_roundtrip_verified.
 
+(* ---------------------------------------------------------------- pilot descriptions *)
+
+(* PilotDescription.verify (schema/defaults generated, _verify modelled by hand): idempotent,
+   the resource / nodes-or-cores requirements hold of what it accepts, every attribute keeps
+   its type-normalised value and no key appears or disappears; the dict round trip is
+   C19_dict_roundtrip with T := pd_table *)
+Theorem C19_pilot_verify_idempotent :
+  forall T (d d' : descr), pd_verify T d = inr d' -> pd_verify T d' = inr d'.
+Proof. exact pd_verify_idempotent. Qed.
+Print Assumptions C19_pilot_verify_idempotent.
+
+Theorem C19_pilot_requirements :
+  forall T (d d' : descr), pd_verify T d = inr d' -> pd_rules d' = true.
+Proof. exact pd_verify_rules. Qed.
+Print Assumptions C19_pilot_requirements.
+
+Theorem C19_pilot_verify_loses_nothing :
+  forall T (k : string) (t : ftype) (d d' : descr),
+    pd_verify T d = inr d' -> lookup k (t_schema T) = Some t ->
+    cast t (getv k d) = inr (getv k d') /\ map fst d' = map fst d.
+Proof. exact pd_verify_untouched. Qed.
+Print Assumptions C19_pilot_verify_loses_nothing.
+
 (* ---------------------------------------------------------------- slots *)
 
 (* old encodings (ints, dicts, RO objects, (index, occupation) tuples) -> new format:
